@@ -6,6 +6,7 @@ range_of(B,op,bb) -> (lo, hi) the value is known to lie in at block bb, from its
                      all switch edges that dominate bb.
 Sound but deliberately small: anything not understood widens to the type range.
 """
+import re
 from .core import callee_of, callee_names, dominating_edges
 
 INF = float('inf')
